@@ -247,7 +247,16 @@ pub fn run(cap: usize, ops: &[LruOp], lookup_must_refresh: bool) -> LruRun {
         ambiguous: false,
         max_states: 1,
     };
-    let r = vcore::catch(|| run_inner(cap, ops, lookup_must_refresh, &mut out));
+    // The cache's Drop takes its mutex with unwrap(): if the subject panics with the mutex held,
+    // dropping the cache while unwinding would panic again and abort the process.  So the cache
+    // is only dropped on the normal path and leaked after a panic.
+    let mut cache: std::mem::ManuallyDrop<LeastRecentlyUsedCache<u8, Val>> =
+        std::mem::ManuallyDrop::new(LeastRecentlyUsedCache::new(cap));
+    let r = vcore::catch(|| run_inner(&cache, cap, ops, lookup_must_refresh, &mut out));
+    let r = match r {
+        Ok(()) => vcore::catch(|| unsafe { std::mem::ManuallyDrop::drop(&mut cache) }),
+        Err(p) => Err(p),
+    };
     if let Err(p) = r {
         out.finding = Some(LruFinding {
             signature: "c18:lru:panic".into(),
@@ -257,8 +266,7 @@ pub fn run(cap: usize, ops: &[LruOp], lookup_must_refresh: bool) -> LruRun {
     out
 }
 
-fn run_inner(cap: usize, ops: &[LruOp], lookup_must_refresh: bool, out: &mut LruRun) {
-    let cache: LeastRecentlyUsedCache<u8, Val> = LeastRecentlyUsedCache::new(cap);
+fn run_inner(cache: &LeastRecentlyUsedCache<u8, Val>, cap: usize, ops: &[LruOp], lookup_must_refresh: bool, out: &mut LruRun) {
     let mut states = vec![RefState::default()];
     let mut excess_allowed = false;
     out.calls += 1;
@@ -279,7 +287,7 @@ fn run_inner(cap: usize, ops: &[LruOp], lookup_must_refresh: bool, out: &mut Lru
             (LruOp::Pop, true)
         };
         let tag = step as u32 + 1;
-        let obs = apply_real(&cache, op, tag);
+        let obs = apply_real(cache, op, tag);
         let size = cache.approximate_size();
         out.calls += 2;
         let phase = if draining { "final-drain" } else { op.kind() };
